@@ -57,56 +57,52 @@ Theorem C13_fixed_F13c :
 Proof. exact fixed_F13c. Qed.
 Print Assumptions C13_fixed_F13c.
 
-(* Grouping.  Under single_tag and tags_spelled_uniformly, for ALL operation lists and all
-   normalisation / scoring functions: the mock groups are the endpoint groups (same keys up to
-   normalisation, same operations, same order), the canonical tag chosen for each key by the emitter —
-   and hence by ClientVisitor (C07_clients_mirror) — is the raw tag MocksEmitter uses, and every mock
-   group is found under its key.  The equality of the two property-name sets is C13_same_tags_partial below. *)
-Theorem C13_partial : forall tag_key score l,
-  guard_F13a l = true -> guard_F13b tag_key l = true ->
-  keyify tag_key (mock_groups l) = group tag_key l
-  /\ emitter_tags tag_key score l = map (fun tg => (tag_key (fst tg), fst tg)) (mock_groups l)
-  /\ same_methods tag_key l.
-Proof.
-  intros tk sc l Ha Hb. pose proof (guard_F13a_single l Ha) as S. pose proof (guard_F13b_uniform tk l Hb) as U.
-  split; [exact (groups_agree tk l S U) | split; [exact (tags_agree tk sc l S U) | exact (same_methods_partial tk l S U)]].
-Qed.
-Print Assumptions C13_partial.
+(* Grouping (after the fix of F13a/F13b: MocksEmitter takes its groups from ClientVisitor.tag_tuples).
+   FULL, for ALL operation lists and all normalisation / scoring functions: the filter MocksEmitter applies
+   for a key is exactly the endpoint group of that key; no canonical tag repeats and no mock group is empty,
+   so the mock groups are one per tag key in ClientVisitor's order; every mock group is the endpoint group of
+   its tag (same operations, same order). *)
+Theorem C13_full_ops_of_key : forall tag_key l k,
+  ops_of_key tag_key k l = alookup_l k (group tag_key l).
+Proof. intros tk l k. exact (ops_of_key_group idf tk idf idf no_score (fun _ => true) l k). Qed.
+Print Assumptions C13_full_ops_of_key.
 
-(* MockAPIClient and APIClient expose the same tag properties: for every operation list, under single_tag
-   [F13a], tags_spelled_uniformly [F13b] and pairwise distinct identifier module names (the C07 guard,
-   negation of F07e), both files are importable and the two property-name sets are equal.  FULL on the
-   model (sorting = permutation, no overwrite, identifier checks included). *)
-Theorem C13_same_tags_partial : forall mn tk ta tc sc pid l,
-  guard_F13a l = true -> guard_F13b tk l = true ->
+Theorem C13_full_groups : forall tag_key score l,
+  mock_groups tag_key score l = map (mg_entry tag_key l) (sort_by_key (emitter_tags tag_key score l)).
+Proof. intros tk sc l. exact (mock_groups_eq idf tk idf idf sc (fun _ => true) l). Qed.
+Print Assumptions C13_full_groups.
+
+Theorem C13_full_methods : forall tag_key score l, same_methods tag_key score l.
+Proof. intros tk sc l. exact (same_methods_full idf tk idf idf sc (fun _ => true) l). Qed.
+Print Assumptions C13_full_methods.
+
+(* MockAPIClient and APIClient expose the same tag properties: for every operation list whose canonical module
+   names are pairwise distinct identifiers (modules_ok: the C07 guard, negation of the open finding F07e) both
+   files are importable and the two property-name sets are equal.  No F13 guard is left. *)
+Theorem C13_full_tags : forall mn tk ta tc sc pid l,
   modules_ok tk ta sc pid (emitted_ops mn l) = true ->
   same_tags mn tk ta tc sc pid l.
-Proof. exact same_tags_partial. Qed.
-Print Assumptions C13_same_tags_partial.
+Proof. exact same_tags_full. Qed.
+Print Assumptions C13_full_tags.
 
-Theorem C13_guard_nonvacuous :
-  single_tag ops_ok13 /\ uniform key_F07c (map first_tag ops_ok13) /\ length (mock_groups ops_ok13) = 2%nat.
-Proof. exact grouping_guard_nonvacuous. Qed.
-Print Assumptions C13_guard_nonvacuous.
-
-Theorem C13_refuted_F13a :
-  guard_F13a ops_F13a = false
-  /\ mock_props idf key_F07c ident_any ops_F13a = Some [s_users]
+(* regressions of the fixed findings: the old witnesses meet the spec *)
+Theorem C13_fixed_F13a :
+  mock_props idf key_F07c key_F07c no_score ident_any ops_F13a = Some [s_admin; s_users]
   /\ client_props idf key_F07c key_F07c idf no_score ident_any ops_F13a = Some [s_admin; s_users]
-  /\ ~ same_tags idf key_F07c key_F07c idf no_score ident_any ops_F13a.
-Proof. exact refuted_F13a. Qed.
-Print Assumptions C13_refuted_F13a.
+  /\ map (fun tg => (fst tg, map o_id (snd tg))) (mock_groups key_F07c no_score ops_F13a) = [(s_admin, [s_a]); (s_Users, [s_a])].
+Proof. exact fixed_F13a. Qed.
+Print Assumptions C13_fixed_F13a.
 
-Theorem C13_refuted_F13b :
-  guard_F13a ops_F13b = true /\ guard_F13b key_F07c ops_F13b = false
-  /\ mock_props idf key_F07c ident_any ops_F13b = None
-  /\ mock_files idf key_F07c idf ops_F13b = [(s_users, (k_Mock ++ s_users ++ s_Client, [s_b]))]
-  /\ ~ same_methods key_F07c ops_F13b.
-Proof. exact refuted_F13b. Qed.
-Print Assumptions C13_refuted_F13b.
+Theorem C13_fixed_F13b :
+  mock_props idf key_F07c key_F07c no_score ident_any ops_F13b = Some [s_users]
+  /\ client_props idf key_F07c key_F07c idf no_score ident_any ops_F13b = Some [s_users]
+  /\ map (fun tg => map o_id (snd tg)) (mock_groups key_F07c no_score ops_F13b) = [[s_a; s_b]]
+  /\ mock_files idf key_F07c key_F07c idf no_score ops_F13b = [(s_users, (k_Mock ++ s_users ++ s_Client, [s_a; s_b]))].
+Proof. exact fixed_F13b. Qed.
+Print Assumptions C13_fixed_F13b.
 
 Theorem C13_fixed_F01e :
-  mock_props idf idf ident_any [] = Some [] /\ client_props idf idf idf idf no_score ident_any [] = Some []
+  mock_props idf idf idf no_score ident_any [] = Some [] /\ client_props idf idf idf idf no_score ident_any [] = Some []
   /\ same_tags idf idf idf idf no_score ident_any [].
 Proof. exact fixed_F01e. Qed.
 Print Assumptions C13_fixed_F01e.
